@@ -240,7 +240,10 @@ def run_line(line):
     except Exception as e:
         return "cfgerr:" + type(e).__name__
     for trx in app.trx_list.trx_list:
-        trx._tx_queue_lock = PausingLock()
+        # every mutex of the transceiver object, under whatever (private) name
+        locks = [k for k, v in vars(trx).items() if type(v).__name__ in ("lock", "RLock", "_RLock")] or ["_tx_queue_lock"]
+        for k in locks:
+            setattr(trx, k, PausingLock())
     wh.CUR_APP[0] = app
     wh.CALLS.clear(); FWD.clear()
     res = []
